@@ -575,13 +575,17 @@ static void run_case(Rng&, Ctx& c)
 
   std::string T, other;
   long fileKey = (long)ik * 1000 + inst;
-  if (!buildSeed(kind, c.seed, fileKey, th, T)) { c.skip("no-seed-file:" + kind.name); return; }
+  // instance 0 of every kind is CANONICAL: generated from a fixed number, not from VERIF_SEED, so that the enumerated
+  // part of the quick tier (prefixes, tokens, counts, lines, file-level) visits the same mutants whatever the seed and
+  // its violation keys are stable; VERIF_SEED drives the blind component, and the further instances of the thorough tier
+  const uint64_t genSeed = (inst == 0) ? 20261002ULL : c.seed;
+  if (!buildSeed(kind, genSeed, fileKey, th, T)) { c.skip("no-seed-file:" + kind.name); return; }
   // a second seed file (another kind) for the splices
   {
     size_t jk = (ik + 7) % kinds.size();
     if (kinds[jk].binary) jk = (jk + 1) % kinds.size();
     std::string keep = T;
-    if (!buildSeed(kinds[jk], c.seed, (long)jk * 1000 + inst, th, other)) other.clear();
+    if (!buildSeed(kinds[jk], genSeed, (long)jk * 1000 + inst, th, other)) other.clear();
     writeFile("seed.bin", keep);
   }
   c.putn("seed_bytes", (double)T.size());
@@ -602,8 +606,11 @@ static void run_case(Rng&, Ctx& c)
   if (batch == 0 || true)
   {
     writeFile("m.bin", T);
-    ChildOutcome o = runChild([&](int wfd) { loadInChild(kind, "m.bin", wfd, true); }, 20., 300., "child.err");
-    if (o.payload.find("B0\n") != std::string::npos) baselineBroken.insert("cannot-be-saved");
+    // (own child: saving a default-constructed object may itself crash, e.g. Rule() has no node to write)
+    ChildOutcome ob = runChild([&](int wfd) { loadInChild(kind, "/nonexistent/file", wfd, true); }, 20., 300., "child.err");
+    if (ob.payload.find("B1\n") == std::string::npos) baselineBroken.insert("cannot-be-saved");
+    ChildOutcome o = runChild([&](int wfd) { loadInChild(kind, "m.bin", wfd, false); }, 20., 300., "child.err");
+    if (c.verbose) fprintf(stderr, "baseline child: kind=%d payload=[%s] stderr=[%s]\n", (int)o.kind, printable(o.payload, 400).c_str(), printable(o.errText, 1200).c_str());
     if (o.kind == ChildOutcome::OK)
     {
       size_t rp = o.payload.find("R\t");
